@@ -26,6 +26,7 @@ import (
 	"context"
 	"encoding/json"
 	"fmt"
+	"net/url"
 	"os"
 	"path"
 	"path/filepath"
@@ -62,6 +63,15 @@ func (s c19Suite) Gen(rng *Rng, tier string, w *bufio.Writer, stats *Stats) {
 		fmt.Fprintf(w, "opts %s %d %d\n", codec, batch, shard)
 		stats.Inc("cases")
 	}
+	// the core cases run with scrubbing on for every other database (the other half of the cases of that database run
+	// with scrubbing off), so that "resumed dump = uninterrupted dump" is exercised with Scrub=full in every mode
+	scrubbed := func(on bool) {
+		if on {
+			fmt.Fprintln(w, "set salt s1")
+			fmt.Fprintln(w, "set scrub full")
+			stats.Inc("scrubbed_cases")
+		}
+	}
 	for d := 0; d < nDB; d++ {
 		graphs := genSmallGraphs(rng)
 		nEnt := 0
@@ -81,7 +91,8 @@ func (s c19Suite) Gen(rng *Rng, tier string, w *bufio.Writer, stats *Stats) {
 		}
 		maxPoints++ // one beyond the last point: the dump completes
 		// (1) exhaustive first-level crash enumeration, each followed by an uncrashed resume
-		header(fmt.Sprintf("db=%d exhaustive-crash", d), graphs, codec, batch, shard)
+		header(fmt.Sprintf("db=%d exhaustive-crash scrub=%v", d, d%2 == 1), graphs, codec, batch, shard)
+		scrubbed(d%2 == 1)
 		fmt.Fprintln(w, "plan")
 		for k := 0; k <= maxPoints; k++ {
 			fmt.Fprintf(w, "crash %d\n", k)
@@ -90,7 +101,8 @@ func (s c19Suite) Gen(rng *Rng, tier string, w *bufio.Writer, stats *Stats) {
 			stats.Inc("crash_points")
 		}
 		// (2) repeated crashes: crash, then resume crashing again (twice), then a clean resume
-		header(fmt.Sprintf("db=%d repeated-crash", d), graphs, codec, batch, shard)
+		header(fmt.Sprintf("db=%d repeated-crash scrub=%v", d, d%2 == 0), graphs, codec, batch, shard)
+		scrubbed(d%2 == 0)
 		for i := 0; i < 12; i++ {
 			fmt.Fprintf(w, "crash %d\n", 1+rng.Intn(maxPoints))
 			fmt.Fprintf(w, "resume %d\n", 1+rng.Intn(maxPoints))
@@ -104,7 +116,8 @@ func (s c19Suite) Gen(rng *Rng, tier string, w *bufio.Writer, stats *Stats) {
 			stats.Inc("repeated_crash_rounds")
 		}
 		// (3) DB read errors at every fetch, immediate and after m records, then resume
-		header(fmt.Sprintf("db=%d read-faults", d), graphs, codec, batch, shard)
+		header(fmt.Sprintf("db=%d read-faults scrub=%v", d, d%2 == 1), graphs, codec, batch, shard)
+		scrubbed(d%2 == 1)
 		for f := 1; f <= nEnt+2; f++ {
 			for _, m := range []int{-1, 0, 1, 2} {
 				fmt.Fprintf(w, "readfault %d %d\n", f, m)
@@ -117,7 +130,8 @@ func (s c19Suite) Gen(rng *Rng, tier string, w *bufio.Writer, stats *Stats) {
 			}
 		}
 		// (4) refusals: changed options, changed source, stray file, corrupted / missing committed fragment
-		header(fmt.Sprintf("db=%d refusals", d), graphs, codec, batch, shard)
+		header(fmt.Sprintf("db=%d refusals scrub=%v", d, d%2 == 0), graphs, codec, batch, shard)
+		scrubbed(d%2 == 0)
 		for i := 0; i < 6; i++ {
 			k := 3 + rng.Intn(maxPoints)
 			fmt.Fprintf(w, "crash %d\n", k)
@@ -153,6 +167,49 @@ func (s c19Suite) Gen(rng *Rng, tier string, w *bufio.Writer, stats *Stats) {
 		fmt.Fprintln(w, "resume 0")
 		fmt.Fprintln(w, "final")
 		stats.Inc("refusal_rounds")
+		// (7) foreign files: after an interruption one file (or directory) that the dump did not write appears somewhere
+		// under the output directory; the name alphabet covers the known temporaries, other `*.tmp` names, fragment-like
+		// names beyond the cursor, hidden files, names differing from the dump's own by case or suffix, at every level
+		{
+			header(fmt.Sprintf("db=%d foreign-files", d), graphs, codec, batch, shard)
+			dir := "graphs/" + url.PathEscape(graphs[0].name)
+			ext := map[string]string{"none": "", "gzip": ".gz", "zstd": ".zst"}[codec]
+			names := []string{
+				".retriever-checkpoint.json.tmp", "manifest.json.tmp",
+				dir + "/nodes-000001.jsonl" + ext + ".tmp", dir + "/nodes-000002.jsonl" + ext + ".tmp", dir + "/nodes-000007.jsonl" + ext + ".tmp",
+				dir + "/edges-000001.jsonl" + ext + ".tmp", dir + "/edges-000003.jsonl" + ext + ".tmp",
+				"notes.tmp", "graphs/notes.tmp", dir + "/x.tmp", "graphs/other/nodes-000001.jsonl" + ext + ".tmp", ".tmp",
+				dir + "/nodes-000007.jsonl" + ext, dir + "/edges-000009.jsonl" + ext, "graphs/other/nodes-000001.jsonl" + ext,
+				".hidden", "graphs/.hidden", dir + "/.keep",
+				"Manifest.json", "manifest.json.bak", ".retriever-checkpoint.json.bak", ".Retriever-checkpoint.json",
+				dir + "/NODES-000001.jsonl" + ext, dir + "/nodes-000001.jsonl" + ext + ".bak", dir + "/nodes-1.jsonl" + ext, "notes.txt",
+			}
+			dirs := []string{"emptydir", "graphs/emptydir", dir + "/sub", "dir.tmp"}
+			if tier != "thorough" { // a sample in the quick tier, always including one of each class
+				keep := map[int]bool{0: true, 1: true, 4: true, 7: true, 12: true, 15: true, 19: true}
+				var sample []string
+				for i, n := range names {
+					if keep[i] || rng.Chance(1, 3) {
+						sample = append(sample, n)
+					}
+				}
+				names, dirs = sample, dirs[:2+rng.Intn(2)]
+			}
+			for _, n := range names {
+				fmt.Fprintf(w, "crash %d\n", 3+rng.Intn(maxPoints-6))
+				fmt.Fprintf(w, "stray %s\n", n)
+				fmt.Fprintln(w, "resume 0")
+				fmt.Fprintln(w, "final")
+				stats.Inc("foreign_files")
+			}
+			for _, n := range dirs {
+				fmt.Fprintf(w, "crash %d\n", 3+rng.Intn(maxPoints-6))
+				fmt.Fprintf(w, "straydir %s\n", n)
+				fmt.Fprintln(w, "resume 0")
+				fmt.Fprintln(w, "final")
+				stats.Inc("foreign_dirs")
+			}
+		}
 		// (5) identity: with scrubbing off and on, interrupt the dump, change exactly ONE field of the call, resume:
 		// a bound field must be refused (and restoring it must complete to the uninterrupted result), an exempt or
 		// inert field must not matter
@@ -223,12 +280,93 @@ func (s c19Suite) Gen(rng *Rng, tier string, w *bufio.Writer, stats *Stats) {
 			fmt.Fprintln(w, "resume 0")
 			fmt.Fprintln(w, "final")
 		}
+		// (6) source changes between interruption and resume, ONE dimension at a time (a node added with the
+		// relationships unchanged, or a relationship added with the nodes unchanged), to a graph that is already
+		// completed, to the graph in progress, and to a graph not started yet: the first two must be refused, the
+		// last is a legitimate dump of the current source; undoing the change must let the resume complete
+		g3 := genSmallGraphsN(rng, 3, true)
+		header(fmt.Sprintf("db=%d source-change", d), g3, codec, batch, shard)
+		perGraph := func(g genGraph) int {
+			return 6 + 5*(ceil(len(g.nodes), shard)+ceil(len(g.edges), shard)) + len(g.nodes) + len(g.edges)
+		}
+		start1 := 3 + perGraph(g3[0]) // crash points 1..start1 end with the completion checkpoint of graph 0
+		for gi, g := range g3 {
+			for _, dim := range []string{"node", "edge"} {
+				// inside graph 1, after its snapshot checkpoint (2 points) and before its completion
+				k := start1 + 2 + rng.Intn(perGraph(g3[1])-3)
+				fmt.Fprintf(w, "crash %d\n", k)
+				id := 200000 + d*10 + gi
+				add, del := fmt.Sprintf("srcadd %s %d", g.name, id), fmt.Sprintf("srcdelnode %s %d", g.name, id)
+				if dim == "edge" {
+					add = fmt.Sprintf("srcaddedge %s %d %d %d", g.name, id, g.nodes[0].id, g.nodes[0].id)
+					del = fmt.Sprintf("srcdeledge %s %d", g.name, id)
+				}
+				fmt.Fprintln(w, add)
+				fmt.Fprintln(w, "resume 0")
+				if gi == 2 {
+					fmt.Fprintln(w, "final")
+					fmt.Fprintln(w, del)
+				} else {
+					fmt.Fprintln(w, del)
+					fmt.Fprintln(w, "resume 0")
+					fmt.Fprintln(w, "final")
+				}
+				stats.Inc("source_change_rounds")
+			}
+		}
 	}
 }
 
+// c19Props: small property objects whose keys come in several spellings that the scrubber normalises to the same
+// key (case, `-`, `_`), free-text keys next to structured ones, so that with scrubbing on the treatment of a key on a
+// later node could depend on what an earlier node looked like (it must not).
+var c19Props = []string{
+	"-", "{}", `{"n":1}`, `{"s":"x"}`,
+	`{"description":"plain-text-one"}`, `{"Description":"plain-text-two"}`, `{"DESCRIPTION":"plain-text-three"}`, `{"De-scription":"plain-text-four"}`,
+	`{"comment":"c-one"}`, `{"Comment":"c-two"}`, `{"note":"n-one"}`, `{"Note":"n-two","description":"both"}`, `{"info":"i"}`, `{"Info":"I"}`,
+	`{"name":"alice"}`, `{"Name":"bob"}`, `{"display_name":"carol"}`, `{"DisplayName":"dave"}`,
+	`{"objectid":"S-1-5-21-1-2-3-500"}`, `{"ObjectID":"S-1-5-21-1-2-3-501"}`, `{"object_id":"S-1-5-21-1-2-3-502"}`,
+	`{"homedirectory":"/home/a"}`, `{"Home_Directory":"/home/b"}`, `{"logonscript":"a.bat"}`, `{"LogonScript":"b.bat"}`,
+	`{"whencreated":1700000000}`, `{"WhenCreated":1700000500}`, `{"title":"Boss"}`, `{"Title":"Minion"}`,
+	`{"password":"hunter2"}`, `{"Pass-Word":"hunter3"}`, `{"email":"a@b.example"}`, `{"EMail":"c@d.example"}`,
+}
+
+// c19KeyFamilies: spellings the scrubber normalises to one key (case, `-`, `_`, spaces), one family per way a key
+// can be classified (free text, timestamp, path, script, sensitive, semantic, reference, preserved, plain)
+var c19KeyFamilies = [][]string{
+	{"description", "Description", "DESCRIPTION", "De-scription", "de_scription"},
+	{"comment", "Comment", "COMMENT"}, {"note", "Note", "NOTE"}, {"info", "Info", "INFO"},
+	{"whencreated", "WhenCreated", "when_created", "WHENCREATED"}, {"lastseenat", "LastSeenAt", "last-seen-at"},
+	{"homedirectory", "HomeDirectory", "Home_Directory"}, {"logonscript", "LogonScript", "Logon-Script"},
+	{"password", "Password", "Pass-Word"}, {"email", "EMail", "E_Mail"}, {"title", "Title", "TITLE"}, {"department", "Department"},
+	{"objectid", "ObjectID", "object_id"}, {"domainsid", "DomainSID", "domain_sid"}, {"kind", "Kind"}, {"name", "Name", "NAME"},
+	{"plainkey", "PlainKey", "plain_key"},
+}
+
+func c19FamilyValue(family string, i int) string {
+	switch family {
+	case "whencreated", "lastseenat":
+		return strconv.Itoa(1700000000 + 1000*i)
+	case "objectid":
+		return fmt.Sprintf(`"S-1-5-21-1-2-3-%d"`, 500+i)
+	case "domainsid":
+		return `"S-1-5-21-1-2-3"`
+	case "homedirectory":
+		return fmt.Sprintf(`"/home/user%d"`, i)
+	case "email":
+		return fmt.Sprintf(`"user%d@corp.example"`, i)
+	}
+	return fmt.Sprintf(`"value-%d-of-%s"`, i, family)
+}
+
 // genSmallGraphs: 1-2 graphs with 0-5 nodes and 0-4 relationships, small properties.
-func genSmallGraphs(rng *Rng) []genGraph {
-	ng := Pick(rng, []int{1, 1, 2})
+func genSmallGraphs(rng *Rng) []genGraph { return genSmallGraphsN(rng, 0, false) }
+
+// genSmallGraphsN: ng graphs (0 = 1-2 at random); nonEmpty forces at least one node per graph.
+func genSmallGraphsN(rng *Rng, ng int, nonEmpty bool) []genGraph {
+	if ng == 0 {
+		ng = Pick(rng, []int{1, 1, 2})
+	}
 	names := []string{"default", "a/b", "g2"}
 	var graphs []genGraph
 	nextNode, nextEdge := uint64(rng.Intn(2)), uint64(rng.Intn(2))
@@ -240,8 +378,14 @@ func genSmallGraphs(rng *Rng) []genGraph {
 			}
 		}
 		nn := Pick(rng, []int{0, 1, 2, 3, 4, 5})
+		if nonEmpty && nn == 0 {
+			nn = 2
+		}
+		if rng.Chance(1, 3) {
+			nextNode, nextEdge = uint64(rng.Intn(2)), uint64(rng.Intn(2)) // graphs may reuse ids (each numbering from the start)
+		}
 		for i := 0; i < nn; i++ {
-			g.nodes = append(g.nodes, genNode{id: nextNode, kinds: genKinds(rng, []string{"A", "B"}), props: Pick(rng, []string{"-", "{}", `{"n":1}`, `{"s":"x"}`})})
+			g.nodes = append(g.nodes, genNode{id: nextNode, kinds: genKinds(rng, []string{"A", "B"}), props: Pick(rng, c19Props)})
 			nextNode += uint64(1 + rng.Intn(3))
 		}
 		ne := 0
@@ -251,6 +395,19 @@ func genSmallGraphs(rng *Rng) []genGraph {
 		for i := 0; i < ne; i++ {
 			g.edges = append(g.edges, genEdge{id: nextEdge, s: g.nodes[rng.Intn(nn)].id, e: g.nodes[rng.Intn(nn)].id, kind: Pick(rng, []string{"R", "Q"}), props: "{}"})
 			nextEdge += uint64(1 + rng.Intn(3))
+		}
+		// key-spelling families: for every other graph the nodes (and relationships), in id order, carry the SAME key in
+		// successive spellings, so that for every pair of spellings there is a crash point between their fragments
+		if rng.Bool() {
+			fam := Pick(rng, c19KeyFamilies)
+			off := rng.Intn(len(fam))
+			for i := range g.nodes {
+				g.nodes[i].props = fmt.Sprintf(`{"%s":%s}`, fam[(i+off)%len(fam)], c19FamilyValue(fam[0], i))
+			}
+			efam := Pick(rng, c19KeyFamilies)
+			for i := range g.edges {
+				g.edges[i].props = fmt.Sprintf(`{"%s":%s}`, efam[(i+off)%len(efam)], c19FamilyValue(efam[0], i))
+			}
 		}
 		for i := len(g.nodes) - 1; i > 0; i-- {
 			j := rng.Intn(i + 1)
@@ -281,6 +438,7 @@ type c19Runner struct {
 	progressCb       bool
 	force            bool
 	dir              map[string][]byte          // the dump directory between ops
+	dirs             []string                   // foreign (empty) directories placed by `straydir`
 	dirCodec         retriever.CompressionCodec // codec of the fresh dump that created dir
 	srcVersion       int                        // bumped by srcadd
 	corrupted        map[string]bool            // fragments damaged by the `corrupt` op (described as stray)
@@ -424,6 +582,9 @@ func (r *c19Runner) Step(_ []string, raw string) string {
 	case len(t) == 2 && t[0] == "stray":
 		r.dir[t[1]] = []byte("stray\n")
 		return "ok"
+	case len(t) == 2 && t[0] == "straydir":
+		r.dirs = append(r.dirs, t[1])
+		return "ok"
 	case len(t) == 1 && t[0] == "torn":
 		n := 0
 		for p, b := range r.dir {
@@ -468,6 +629,40 @@ func (r *c19Runner) Step(_ []string, raw string) string {
 		r.src.db.AddNode(t[1], id, nil, nil)
 		r.srcVersion++
 		return "ok"
+	case len(t) == 5 && t[0] == "srcaddedge":
+		id, e1 := strconv.ParseUint(t[2], 10, 64)
+		st, e2 := strconv.ParseUint(t[3], 10, 64)
+		en, e3 := strconv.ParseUint(t[4], 10, 64)
+		if e1 != nil || e2 != nil || e3 != nil || !r.src.db.HasGraph(t[1]) {
+			return "bad-op"
+		}
+		r.src.db.AddEdge(t[1], id, st, en, "R", nil)
+		r.srcVersion++
+		return "ok"
+	case len(t) == 3 && (t[0] == "srcdelnode" || t[0] == "srcdeledge"):
+		id, err := strconv.ParseUint(t[2], 10, 64)
+		if err != nil || !r.src.db.HasGraph(t[1]) {
+			return "bad-op"
+		}
+		g := r.src.db.Graph(t[1])
+		if t[0] == "srcdelnode" {
+			for i, n := range g.Nodes {
+				if n.ID == id {
+					g.Nodes = append(g.Nodes[:i:i], g.Nodes[i+1:]...)
+					r.srcVersion++
+					return "ok"
+				}
+			}
+		} else {
+			for i, e := range g.Edges {
+				if e.ID == id {
+					g.Edges = append(g.Edges[:i:i], g.Edges[i+1:]...)
+					r.srcVersion++
+					return "ok"
+				}
+			}
+		}
+		return "none"
 	case len(t) == 1 && t[0] == "final":
 		return r.final()
 	}
@@ -608,7 +803,7 @@ func (r *c19Runner) dumpFresh(crashAt int) string {
 	return withTempDir(func(dir string) string {
 		out := dir + "/out"
 		_, crashed, err := r.runDump(out, false, crashAt)
-		r.dir, r.dirCodec, r.corrupted = readTree(out), r.codec, nil
+		r.dir, r.dirCodec, r.corrupted, r.dirs = readTree(out), r.codec, nil, nil
 		switch {
 		case crashed != nil:
 			r.stats.Inc("crashed." + crashed.name)
@@ -638,6 +833,9 @@ func (r *c19Runner) resume(crashAt int) string {
 		}
 		if err := writeFileTree(out, r.dir); err != nil {
 			return "err tempdir"
+		}
+		for _, d := range r.dirs {
+			_ = os.MkdirAll(filepath.Join(out, filepath.FromSlash(d)), 0o755)
 		}
 		_, crashed, err := r.runDump(out, true, crashAt)
 		r.dir = readTree(out)
